@@ -44,7 +44,7 @@ from modelx.core.space import (
     SpaceView,
     RefDict
 )
-from modelx.core.formula import NULL_FORMULA
+from modelx.core.formula import Formula, NULL_FORMULA
 from modelx.core.util import is_valid_name, AutoNamer
 from modelx.core.chainmap import CustomChainMap
 
@@ -1357,7 +1357,17 @@ class SpaceManager(SharedSpaceOperations):
 
         # FIX: Creating a Cells of the same name in ``space``
 
-        if not self._can_add(space, name, CellsImpl):
+        # Determine name in the same way as CellsImpl.__init__
+        if not is_valid_name(name) and formula:
+            name = Formula(formula).name
+
+        if not is_valid_name(name):
+            while True:
+                name = space.cellsnamer.get_next(space.namespace)
+                if self._can_add(space, name, CellsImpl):
+                    break
+
+        elif not self._can_add(space, name, CellsImpl):
             raise ValueError("Cannot create cells '%s'" % name)
 
         cells = UserCellsImpl(
